@@ -3,10 +3,13 @@ package simd
 import (
 	"bytes"
 	"context"
+	"crypto/sha256"
+	"encoding/json"
 	"fmt"
 	"math/big"
 	"math/rand/v2"
 	"os"
+	"path/filepath"
 	"sort"
 	"strings"
 	"sync"
@@ -23,6 +26,8 @@ import (
 	"github.com/nspcc-dev/neo-go/pkg/encoding/address"
 	"github.com/nspcc-dev/neo-go/pkg/smartcontract"
 	"github.com/nspcc-dev/neo-go/pkg/smartcontract/callflag"
+	"github.com/nspcc-dev/neo-go/pkg/smartcontract/manifest"
+	"github.com/nspcc-dev/neo-go/pkg/smartcontract/nef"
 	"github.com/nspcc-dev/neo-go/pkg/smartcontract/trigger"
 	"github.com/nspcc-dev/neo-go/pkg/util"
 	"github.com/nspcc-dev/neo-go/pkg/vm/stackitem"
@@ -55,8 +60,9 @@ type Config struct {
 	HoldPct     int // per mempool transaction and block, inside the fault window: held back
 	FaultBlocks int // the fault window: faults are injected while height < FaultBlocks
 	Rerun       bool
-	Liveness    int // B: blocks allowed after the last fault
-	Bootstrap   int // B1: blocks allowed for the Notary bootstrap with late members absent
+	Upgrade     bool // the chain is first deployed with older-version executables; Deploy must upgrade them
+	Liveness    int  // B: blocks allowed after the last fault
+	Bootstrap   int  // B1: blocks allowed for the Notary bootstrap with late members absent
 }
 
 // Violation is one broken oracle rule.
@@ -118,6 +124,9 @@ type sim struct {
 	byName     map[string][]util.Uint160
 	neoChecked map[string]bool
 	designSent int
+	old        []contracts.Contract // older-version executables (upgrade scenario)
+	useOld     bool
+	updTx      map[string]string // contract hash / 100-block window → (nonce, VUB, script digest) of update transactions
 	heldTx     map[string]int
 }
 
@@ -128,6 +137,9 @@ func (glag) LetterByIndex(i int) string { return fmt.Sprintf("letter%d", i) }
 
 func (s *sim) prm(ctx context.Context, i, inc int) deploy.Prm {
 	fs := s.fs
+	if s.useOld {
+		fs = s.old
+	}
 	var p deploy.Prm
 	p.Logger = zap.NewNop()
 	if os.Getenv("VERIF_D_LOG") != "" {
@@ -265,6 +277,15 @@ func RunSim(t *testing.T, cfg Config) (res *Result) {
 		}
 		s.c.onTx = s.onTx
 		s.c.onReject = s.onReject
+		s.updTx = map[string]string{}
+		if cfg.Upgrade {
+			s.old = loadOld()
+			if !s.bootstrapOld() {
+				res.Height = s.c.bc.BlockHeight()
+				s.shutdown()
+				return
+			}
+		}
 		s.logf("config n=%d random=%v blockQuanta=%d late=%v crashes=%v rpcErr=%d evt=%d hold=%d window=%d rerun=%v", cfg.N, cfg.SchedRandom, cfg.BlockQuanta, cfg.Late, cfg.Crashes, cfg.RPCErrPct, cfg.EvtPct, cfg.HoldPct, cfg.FaultBlocks, cfg.Rerun)
 		for _, l := range cfg.Late {
 			s.lateHeld[l] = true
@@ -600,6 +621,30 @@ func (s *sim) onTx(member int, tx *transaction.Transaction, notaryMain bool) {
 	if strings.Contains(kind, "designateAsRole") && !notaryMain {
 		s.designSent++
 	}
+	if notaryMain && strings.Contains(kind, "update") && s.phase == 0 {
+		// committee-witnessed update transactions built by different members
+		// inside one 100-block window must be identical (that is what lets the
+		// Notary service merge their signatures)
+		sc := tx.Script
+		if n := len(sc); n > 27 && sc[n-5] == 0x41 && sc[n-27] == 0x0c && sc[n-26] == 20 {
+			target := fmt.Sprintf("%x", sc[n-25:n-5])
+			win := tx.Nonce / 100
+			k := fmt.Sprintf("%s/%d", target, win)
+			d := fmt.Sprintf("nonce=%d vub=%d script=%x", tx.Nonce, tx.ValidUntilBlock, sha256.Sum256(sc))
+			if prev, ok := s.updTx[k]; ok && prev != d {
+				s.violate("C13/update-transactions-differ-within-window", "contract %s, window %d: %s vs %s", target, win, clipS(prev, 60), clipS(d, 60))
+			}
+			s.updTx[k] = d
+			s.count("probe.update_main_tx_seen")
+			h := s.c.bc.BlockHeight()
+			if tx.Nonce != (h/100)*100 && tx.Nonce != ((h+1)/100)*100 && tx.Nonce != ((h-1)/100)*100 {
+				s.violate("C13/update-nonce-not-window-floor", "update transaction at height %d has nonce %d", h, tx.Nonce)
+			}
+			if tx.ValidUntilBlock != tx.Nonce+100 {
+				s.violate("C13/update-nonce-not-window-floor", "update transaction has nonce %d and ValidUntilBlock %d", tx.Nonce, tx.ValidUntilBlock)
+			}
+		}
+	}
 }
 
 func (s *sim) onReject(member int, tx *transaction.Transaction, err error) {
@@ -609,6 +654,82 @@ func (s *sim) onReject(member int, tx *transaction.Transaction, err error) {
 	if strings.Contains(kind, "designateAsRole") && strings.Contains(err.Error(), "nvalid") && !strings.Contains(err.Error(), "expired") {
 		s.violate("C13/assembled-designation-tx-invalid", "member %d submitted a role designation transaction the ledger refuses: %s", member, clipS(err.Error(), 200))
 	}
+}
+
+// loadOld reads the older-version executables written by simL/cmd/oldart.
+func loadOld() []contracts.Contract {
+	dir := os.Getenv("VERIF_OLDART")
+	if dir == "" {
+		harnessf("VERIF_OLDART is not set")
+	}
+	var out []contracts.Contract
+	for _, n := range []string{"nns", "proxy", "audit", "netmap", "balance", "reputation", "neofsid", "container", "alphabet"} {
+		nb, err := os.ReadFile(filepath.Join(dir, n, "contract.nef"))
+		must(err)
+		mb, err := os.ReadFile(filepath.Join(dir, n, "manifest.json"))
+		must(err)
+		nf, err := nef.FileFromBytes(nb)
+		must(err)
+		var mf manifest.Manifest
+		must(json.Unmarshal(mb, &mf))
+		out = append(out, contracts.Contract{NEF: nf, Manifest: mf})
+	}
+	return out
+}
+
+// bootstrapOld deploys the older-version executables with a fault-free
+// round-robin run of all members (not judged: it only prepares the state).
+func (s *sim) bootstrapOld() bool {
+	s.useOld = true
+	s.phase = 2
+	for i := 0; i < s.cfg.N; i++ {
+		s.start(i)
+	}
+	for {
+		synctest.Wait()
+		if s.allDone() {
+			break
+		}
+		if s.c.bc.BlockHeight() > 3000 {
+			s.res.Harness = "bootstrap with older executables did not converge"
+			return false
+		}
+		s.mu.Lock()
+		for _, m := range s.m {
+			if m.finished && m.err != nil {
+				s.res.Harness = "bootstrap with older executables failed: " + m.err.Error()
+			}
+		}
+		s.mu.Unlock()
+		if s.res.Harness != "" {
+			return false
+		}
+		parked := s.c.gate.Take()
+		if len(parked) > 0 {
+			s.rr++
+			s.c.gate.Release(parked[s.rr%len(parked)])
+			continue
+		}
+		if s.deliver() {
+			continue
+		}
+		time.Sleep(250 * time.Millisecond)
+		s.quanta++
+		if s.quanta%2 == 0 {
+			synctest.Wait()
+			s.produce()
+		}
+	}
+	s.logf("h=%d OLD VERSION DEPLOYED (%d contracts)", s.c.bc.BlockHeight(), s.seenIDs)
+	s.useOld = false
+	s.phase = 0
+	for _, m := range s.m {
+		m.running, m.finished = false, false
+	}
+	s.lastFaultH = s.c.bc.BlockHeight()
+	// the fault window of the judged phase starts now
+	s.cfg.FaultBlocks += int(s.c.bc.BlockHeight())
+	return true
 }
 
 var judgedMethods = []string{"deploy", "update", "register", "registerTLD", "addRecord", "setRecord", "deleteRecords", "designateAsRole", "setAdmin"}
@@ -896,6 +1017,23 @@ func (s *sim) endState() {
 	}
 	if int(s.seenIDs) != 8+s.cfg.N {
 		s.violate("C13/end-contract-count", "%d contracts on chain, expected %d", s.seenIDs, 8+s.cfg.N)
+	}
+	if s.cfg.Upgrade {
+		// every contract was upgraded exactly once to the supplied executable
+		for id := int32(1); id <= s.seenIDs; id++ {
+			h, err := bc.GetContractScriptHash(id)
+			if err != nil {
+				continue
+			}
+			cs := bc.GetContractState(h)
+			if cs == nil {
+				continue
+			}
+			if cs.UpdateCounter != 1 {
+				s.violate("C13/upgrade-count", "contract %d (%s) was updated %d times, expected once", id, cs.Manifest.Name, cs.UpdateCounter)
+			}
+		}
+		s.count("probe.upgrade_scenario_converged")
 	}
 	// all NEO ended on the Alphabet contracts, shares within one of each other
 	var shares []*big.Int
